@@ -508,16 +508,20 @@ func init() {
 		Stubs:  stubErrors,
 	})
 	register(&PropSpec{
-		ID:     "C20",
-		Pkgs:   []string{"gps", "airtime", "root"},
-		Solver: SolverCVC5,
+		ID:   "C20",
+		Pkgs: []string{"gps", "airtime", "root"},
 		Items: func(tier string, seed int64) []Item {
 			var it []Item
 			for _, f := range []string{"VerifC20_GPSRoundTrip", "VerifC20_GPSOffset", "VerifC20_GPSMonotone", "VerifC20_GPSDuration"} {
 				it = append(it, Item{PkgKey: "gps", Func: f, Shape: []int{}})
 			}
-			it = append(it, Item{PkgKey: "root", Func: "VerifC20_EIRPIndex", Shape: []int{}}, Item{PkgKey: "root", Func: "VerifC20_EIRPDecode", Shape: []int{}})
+			it = append(it, Item{PkgKey: "root", Func: "VerifC20_EIRPIndex", Shape: []int{}, Solver: int(SolverCVC5) + 1}, Item{PkgKey: "root", Func: "VerifC20_EIRPDecode", Shape: []int{}, Solver: int(SolverCVC5) + 1})
 			it = append(it, Item{PkgKey: "airtime", Func: "VerifC20_CodingRate", Shape: []int{}})
+			for sf := 5; sf <= 12; sf++ {
+				for bw := 0; bw < 5; bw++ {
+					it = append(it, Item{PkgKey: "airtime", Func: "VerifC20_Durations", Shape: []int{sf, bw}})
+				}
+			}
 			for sf := 5; sf <= 12; sf++ {
 				for cr := 1; cr <= 4; cr++ {
 					for h := 0; h <= 1; h++ {
@@ -525,7 +529,7 @@ func init() {
 							if tier != "thorough" && (sf+cr+h+de)%4 != 0 {
 								continue
 							}
-							it = append(it, Item{PkgKey: "airtime", Func: "VerifC20_Symbols", Shape: []int{sf, cr, h, de}})
+							it = append(it, Item{PkgKey: "airtime", Func: "VerifC20_Symbols", Shape: []int{sf, cr, h, de}, Solver: int(SolverCVC5) + 1})
 							for bw := 0; bw < 5; bw++ {
 								if tier != "thorough" && (bw+sf)%5 != 0 {
 									continue
